@@ -6,6 +6,7 @@
 import Rox.Props.C05
 import Rox.Lemmas.RoundTrip3
 import Rox.Lemmas.RoundTrip6
+import Rox.Lemmas.RoundTrip7
 import Rox.Lemmas.AttrEntity
 import Rox.Props.C03
 
@@ -124,5 +125,38 @@ theorem entity_text_merges_with_neighbours (opt : Opt) (hdtd : opt.allowDtd = tr
     (by simpa [Rox.Spec.Canon.inlineT] using hok) opt (by simpa [Rox.Spec.Canon.inlineT] using hlim) hl32
     (by simpa [Rox.Spec.Canon.inlineT] using hattrs)
   exact ⟨dh, di, ph, by simpa [Rox.Spec.Canon.inlineT] using pi, by rw [vh, vi]; rfl⟩
+
+/-- **Every way of routing content through entities gives the tree of the inline document** (every
+document of the class `Rox.Spec.Canon7.docOkE`: any number of internal general entities `e`, `ex`,
+`exx`, …, entity `i`'s replacement text any mix of elements with attributes, comments, text and
+references to entities declared before it — nested, repeated, empty, unused —, the root element's
+content referring to any entity any number of times, next to text or between markup; provided the
+loop detector accepts the forest of references, `Rox.Spec.walk`: nesting ≤ 10 and ≤ 255 references
+below one reference written in the document): parsing the document with entities (with
+`allow_dtd = true`) succeeds, and its tree is exactly the tree of the inline document
+`inlineTree d`, in which every reference is written out (`expandAllE`) and adjacent character data
+forms one run (`mergeList`) — the same nodes in the same order with the same parents, names,
+attribute lists, comment bodies and texts. -/
+theorem every_entity_routing_equals_inline (opt : Opt) (hdtd : opt.allowDtd = true)
+    (d : Rox.Spec.Canon7.EDoc) (hd : Rox.Spec.Canon7.docOkE d = true)
+    (hacc : Rox.Spec.Canon7.detectorAccepts d = true)
+    (hlim : Rox.Spec.Canon.count (Rox.Spec.Canon7.inlineTree d) + 1 ≤ opt.nodesLimit)
+    (hl32 : opt.nodesLimit ≤ 4294967295)
+    (hattrs : Rox.Lemmas.attrCount (Rox.Spec.Canon7.inlineTree d) < 4294967295) :
+    ∃ doc, parse Generated.tables (Rox.Spec.Canon7.renderEDoc d) opt = .ok doc ∧
+      doc.nodes.toList.map (Rox.Spec.Canon.view doc) =
+        some (none, Rox.Spec.Canon.XKind.root) ::
+          (Rox.Spec.Canon.expect 0 1 (Rox.Spec.Canon7.inlineTree d)).map some :=
+  Rox.Lemmas.parse_renderEDoc Generated.tables C01.generated_tables_ok C03.generated_tables_canon
+    generated_tables_canon3 opt hdtd d hd hacc hlim hl32 hattrs
+
+/-- The class is inhabited by documents that nest and repeat: entity `ex` = `&e;mid&e;` with
+`e` = `b<c/>t`, root content `a&e;&ex;` — in the class and accepted by the detector. -/
+example :
+    let d : Rox.Spec.Canon7.EDoc :=
+      { ents := [[.text [98], .elem [99] [] [], .text [116]], [.ref 0, .text [109, 105, 100], .ref 0]],
+        name := [114], attrs := [], kids := [.text [97], .ref 0, .ref 1] }
+    Rox.Spec.Canon7.docOkE d = true ∧ Rox.Spec.Canon7.detectorAccepts d = true := by
+  decide
 
 end Rox.Props.C07
